@@ -158,7 +158,8 @@ def handleC20 (j : Json) : Except String Verdict := do
   | "decode" =>
     let spec := decodesTo d fs (declShape tsh ish) root cs ps cont
     let modelJ := Json.mkObj [("root", jInts E.root), ("cs", jList (E.cs.map jInts)), ("ps", jList (E.ps.map jInts))]
-    pure { agree := baseAgree, spec, model := modelJ, tags := shapeTags,
+    let layoutTag := if agreeNonC fs (effShape fs tsh ish) (declShape tsh ish) then [] else ["layoutDiffers"]
+    pure { agree := baseAgree, spec, model := modelJ, tags := shapeTags ++ layoutTag,
            why := if spec then "" else "decode: arrays do not decode to the content" }
   | "scan" =>
     let agree := baseAgree && sameCount &&
@@ -187,7 +188,7 @@ def handleC20 (j : Json) : Except String Verdict := do
       pairs.all (fun e => e.2.size == some (sizeCode e.1.getSize))
     let bad := pairs.filter (fun e => e.2.size != some (e.1.words : Int))
     let spec := sameCount && bad.isEmpty
-    let onlyEmpty := !bad.isEmpty && bad.all (fun e => e.2.size == some (-1) && e.1.n == 0)
+    let onlyEmpty := !bad.isEmpty && bad.all (fun e => e.2.size == some (-1) && e.1.sizeAsserts)
     let tags := shapeTags ++ (if onlyEmpty then ["sizeAssertOnlyEmpty"] else [])
     let why := if spec then "" else if onlyEmpty then "size:assert fires on a fiber without elements"
                else "size: differs from the words of the layout"
